@@ -28,7 +28,18 @@ type LoopSpec struct {
 	Modifies []ast.Expr
 }
 
+// GhostAssign: `range n ghost name K->V keyExpr := valExpr` - a witness array updated at the start of each
+// iteration (name[keyExpr] := valExpr, both evaluated in the state the iteration starts in).
+type GhostAssign struct {
+	Name   string
+	KeyT   string
+	ValT   string
+	Key    ast.Expr
+	Val    ast.Expr
+}
+
 type RangeSpec struct {
+	Ghosts  []GhostAssign
 	Over    ast.Expr
 	Visited string
 	Key     string // name bound to the current key in invariants (optional)
@@ -135,6 +146,9 @@ var clauseKeywords = map[string]bool{
 	"props": true, "requires": true, "ensures": true, "modifies": true, "nopanic": true, "maypanic": true,
 	"inline": true, "assumed": true, "pure": true, "use": true, "deterministic": true, "noworld": true, "opaque": true, "dispatch": true, "detargs": true, "loop": true, "range": true, "callsite": true, "decreases": true,
 }
+
+// ghostWitnessDecl: witness arrays declared by `range n ghost` clauses (name -> key type, value type; string or int)
+var ghostWitnessDecl = map[string][2]string{}
 
 var externMethodRE = regexp.MustCompile(`^([\w./-]+)\.\((\*?\w+)\)\.(\w+)(\(.*)$`)
 
@@ -634,6 +648,28 @@ func (c *Contract) addClause(kw, rest string) error {
 		}
 		body := strings.TrimSpace(strings.TrimPrefix(strings.TrimSpace(strings.TrimPrefix(rest, f[0])), f[1]))
 		switch f[1] {
+		case "ghost":
+			// ghost name K->V keyExpr := valExpr
+			g := strings.Fields(body)
+			if len(g) < 4 || !strings.Contains(g[1], "->") {
+				return fmt.Errorf("expected 'range n ghost name K->V keyExpr := valExpr'")
+			}
+			kv := strings.SplitN(g[1], "->", 2)
+			restG := strings.TrimSpace(strings.TrimPrefix(strings.TrimSpace(strings.TrimPrefix(body, g[0])), g[1]))
+			parts := strings.SplitN(restG, ":=", 2)
+			if len(parts) != 2 {
+				return fmt.Errorf("expected 'keyExpr := valExpr'")
+			}
+			kx, err := parser.ParseExpr(strings.TrimSpace(parts[0]))
+			if err != nil {
+				return err
+			}
+			vx, err := parser.ParseExpr(strings.TrimSpace(parts[1]))
+			if err != nil {
+				return err
+			}
+			rs.Ghosts = append(rs.Ghosts, GhostAssign{Name: g[0], KeyT: kv[0], ValT: kv[1], Key: kx, Val: vx})
+			ghostWitnessDecl[g[0]] = [2]string{kv[0], kv[1]}
 		case "over":
 			// over <expr> visited V [key k]
 			i := strings.Index(body, " visited ")
